@@ -6,9 +6,10 @@
 //
 //   top <hasVel> <hasF> <n> {name type resnr resname mass q}*n     writer-side topology
 //   frame <step> <time> <boxkind> b00..b22(row-major) {x y z [vx vy vz] [fx fy fz]}*n
-//   wopen <file> <append>   | wwrite | wclose
+//   wopen <file> <append> [reuse] | wwrite | wclose | wbox (PDBWriter::WriteBox)
 //   rtop <n>                reader-side topology with n beads (sentinel coordinates)
-//   ropen <file> | rfirst | rnext | rclose
+//   ropen <file> [reuse] | rfirst | rnext | rclose      (reuse: same object as the closed one)
+//   rtop2 ropen2 rfirst2 rnext2 rclose2                 a second reader + topology at the same time
 //   readtop <file>          TopReaderFactory
 //   tsave <file> <hasYerr> <comment|-> <n> {x y yerr flag}*n   (flag: i o u _ 0)
 //   tload <file>
@@ -34,10 +35,12 @@
 #include <votca/csg/imcio.h>
 #include <votca/csg/interaction.h>
 #include <votca/csg/molecule.h>
+#include <votca/csg/pdbwriter.h>
 #include <votca/csg/topology.h>
 #include <votca/csg/topologyreader.h>
 #include <votca/csg/trajectoryreader.h>
 #include <votca/csg/trajectorywriter.h>
+#include <votca/tools/constants.h>
 #include <votca/tools/rangeparser.h>
 #include <votca/tools/table.h>
 
@@ -171,9 +174,9 @@ int main() {
   TrajectoryReader::RegisterPlugins();
   TopologyReader::RegisterPlugins();
 
-  std::unique_ptr<Topology> wt, rt;
-  std::unique_ptr<TrajectoryWriter> writer;
-  std::unique_ptr<TrajectoryReader> reader;
+  std::unique_ptr<Topology> wt, rts[2];
+  std::unique_ptr<TrajectoryWriter> writer, idleWriter;  // idle: closed object kept for re-use
+  std::unique_ptr<TrajectoryReader> readers[2], idleReaders[2];
   bool hv = false, hf = false;
 
   std::string line;
@@ -185,6 +188,16 @@ int main() {
     in >> cmd;
     out << "cmd " << seq << " " << line << std::endl;
     json res;
+    // reader commands with suffix 2 (rtop2 ropen2 rfirst2 rnext2 rclose2) act on a second,
+    // independent reader + topology (two handles at once)
+    int slot = 0;
+    if (cmd.size() > 2 && cmd[0] == 'r' && cmd.back() == '2') {
+      slot = 1;
+      cmd.pop_back();
+    }
+    std::unique_ptr<Topology> &rt = rts[slot];
+    std::unique_ptr<TrajectoryReader> &reader = readers[slot];
+    std::unique_ptr<TrajectoryReader> &idleReader = idleReaders[slot];
     try {
       if (cmd == "top") {
         Index n;
@@ -233,9 +246,14 @@ int main() {
         res["ok"] = true;
       } else if (cmd == "wopen") {
         std::string file;
-        int app;
-        in >> file >> app;
-        writer = TrjWriterFactory().Create(file);
+        int app, reuse = 0;
+        in >> file >> app >> reuse;
+        if (reuse) {  // the SAME writer object that wrote (and closed) the previous file
+          if (!idleWriter) throw std::runtime_error("driver: no writer object to re-use");
+          writer = std::move(idleWriter);
+        } else {
+          writer = TrjWriterFactory().Create(file);
+        }
         if (!writer) throw std::runtime_error("driver: no writer for " + file);
         writer->Open(file, app != 0);
         res["ok"] = true;
@@ -244,7 +262,14 @@ int main() {
         res["ok"] = true;
       } else if (cmd == "wclose") {
         writer->Close();
-        writer.reset();
+        idleWriter = std::move(writer);
+        res["ok"] = true;
+      } else if (cmd == "wbox") {
+        // PDBWriter::WriteBox (CRYST1 record) - public entry point next to Write()
+        PDBWriter *pw = dynamic_cast<PDBWriter *>(writer.get());
+        if (!pw) throw std::runtime_error("driver: wbox needs a pdb writer");
+        // WriteBox takes the box in Angstrom (its callers in xtp convert before the call)
+        pw->WriteBox(wt->getBox() * tools::conv::nm2ang);
         res["ok"] = true;
       } else if (cmd == "rtop") {
         Index n;
@@ -259,8 +284,14 @@ int main() {
         res["ok"] = true;
       } else if (cmd == "ropen") {
         std::string file;
-        in >> file;
-        reader = TrjReaderFactory().Create(file);
+        int reuse = 0;
+        in >> file >> reuse;
+        if (reuse) {  // the SAME reader object, after Close() (possibly after a reported error)
+          if (!idleReader) throw std::runtime_error("driver: no reader object to re-use");
+          reader = std::move(idleReader);
+        } else {
+          reader = TrjReaderFactory().Create(file);
+        }
         if (!reader) throw std::runtime_error("driver: no reader for " + file);
         res["ret"] = reader->Open(file);
       } else if (cmd == "rfirst" || cmd == "rnext") {
@@ -269,7 +300,7 @@ int main() {
         res["ret"] = r;
       } else if (cmd == "rclose") {
         reader->Close();
-        reader.reset();
+        idleReader = std::move(reader);
         res["ok"] = true;
       } else if (cmd == "readtop") {
         std::string file;
@@ -415,7 +446,11 @@ int main() {
     out << "res " << res.dump() << std::endl;
   }
   writer.reset();
-  reader.reset();
+  idleWriter.reset();
+  for (int k = 0; k < 2; ++k) {
+    readers[k].reset();
+    idleReaders[k].reset();
+  }
   std::cout.rdbuf(out.rdbuf());
   return 0;
 }
